@@ -267,12 +267,19 @@ func fetchSpentOutputs(ctx context.Context, store storage.Storage, outputFetcher
 
 // processUnconfirmedTxs pulls txs from the unconfirmed tx channel and processes them.
 func (node *Node) processUnconfirmedTxs(ctx context.Context) {
+	failed := false
 	for tx := range node.unconfTxChannel.Channel {
+		if failed {
+			// Keep draining the channel until it is closed. A thread blocked adding to the full
+			// channel holds its lock, which would prevent the shutdown from ever completing.
+			continue
+		}
+
 		if err := node.processUnconfirmedTx(ctx, tx); err != nil {
 			logger.Error(ctx, "SpyNodeAborted to process unconfirmed tx : %s : %s", err,
 				tx.Msg.TxHash().String())
 			node.requestStop(ctx)
-			break
+			failed = true
 		}
 	}
 }
